@@ -1350,8 +1350,7 @@ class InverseLUFactoredSquareMatrix(InvertibleMatrix, ImplicitArrayMatrix):
             inv_lu_transposed: Whether LU factorisation is of inverse of array or
                 transpose of inverse of array.
         """
-        super().__init__(inv_array.shape)
-        self._inv_array = inv_array
+        super().__init__(inv_array.shape, _inv_array=inv_array)
         self._inv_lu_and_piv = inv_lu_and_piv
         self._inv_lu_transposed = inv_lu_transposed
 
@@ -1428,11 +1427,10 @@ class DenseSymmetricMatrix(SymmetricMatrix, InvertibleMatrix, ExplicitArrayMatri
                 matrix being constructed, with `eigval[i]` the eigenvalue associated
                 with column `i` of `eigvec`.
         """
-        super().__init__(array.shape, _array=array)
+        super().__init__(array.shape, _array=array, _eigval=eigval)
         if isinstance(eigvec, np.ndarray):
             eigvec = OrthogonalMatrix(eigvec)
         self._eigvec = eigvec
-        self._eigval = eigval
 
     def _scalar_multiply(self, scalar: ScalarLike) -> DenseSymmetricMatrix:
         return DenseSymmetricMatrix(
